@@ -15,10 +15,10 @@ PLAN = {
     "C03": {"mc": ["MC_Lease", "MC_DeadLetter"], "gen": [("Gen_Mixed", 120, 3000, 25, True), ("Gen_Ordered", 60, 1500, 30, True), ("Gen_DeadLetter", 60, 1500, 32, True)]},
     "C04": {"mc": ["MC_Lease", "MC_Timing"], "gen": [("Gen_Mixed", 80, 2500, 25, True), ("Gen_Timing", 60, 2000, 30, True), ("Gen_DeadLetter", 40, 1000, 32, True),
                                                      ("Gen_Lease", 100, 3000, 60, False, 100)]},
-    "C05": {"mc": ["MC_Ordered"], "impl": ["MC_ImplSnap", "MC_ImplSeek"], "gen": [("Gen_Ordered", 240, 6000, 30, True), ("Gen_Mixed", 80, 2000, 25, True)]},
+    "C05": {"mc": ["MC_Ordered"], "impl": ["MC_ImplSnap"], "impl_thorough": ["MC_ImplSnap_thorough", "MC_ImplSeek"], "gen": [("Gen_Ordered", 240, 6000, 30, True), ("Gen_Mixed", 80, 2000, 25, True)]},
     "C06": {"mc": ["MC_DeadLetter"], "gen": [("Gen_DeadLetter", 240, 6000, 32, True), ("Gen_Mixed", 60, 1500, 25, True)]},
     "C12": {"mc": ["MC_Names"], "gen": [("Gen_Names", 300, 6000, 32, False)]},
-    "C13": {"mc": ["MC_Seek"], "gen": [("Gen_Seek", 120, 4000, 32, True), ("Gen_Snap", 80, 4000, 30, True), ("BFS_Snap", 0, 60000, 8, False)]},
+    "C13": {"mc": ["MC_Seek"], "impl": ["MC_ImplSnap"], "impl_thorough": ["MC_ImplSnap_thorough", "MC_ImplSeek"], "gen": [("Gen_Seek", 120, 4000, 32, True), ("Gen_Snap", 80, 4000, 30, True), ("BFS_Snap", 0, 60000, 8, False)]},
     "C14": {"mc": ["MC_Timing"], "gen": [("Gen_Timing", 260, 6000, 30, True)]},
     "C15": {"mc": ["MC_Prune"], "gen": [("Gen_Prune", 260, 6000, 34, True)]},
     # C09: every mutating step of the generated histories is re-run with the k-th
@@ -34,6 +34,9 @@ PLAN = {
 _CFG = {"ttl": 50, "mttl": 6, "ord": False, "filt": {"op": "true"}, "minB": 2, "maxB": 2, "dlt": "", "maxAtt": 0, "push": "", "labels": {}}
 IMPL_SETUP = {
     "MC_ImplSnap": [{"op": "CreateTopic", "name": "t1"},
+                    {"op": "CreateSub", "name": "s1", "topic": "t1", "cfg": dict(_CFG, ord=True)},
+                    {"op": "CreateSub", "name": "s2", "topic": "t1", "cfg": dict(_CFG)}],
+    "MC_ImplSnap_thorough": [{"op": "CreateTopic", "name": "t1"},
                     {"op": "CreateSub", "name": "s1", "topic": "t1", "cfg": dict(_CFG, ord=True)},
                     {"op": "CreateSub", "name": "s2", "topic": "t1", "cfg": dict(_CFG)}],
     "MC_ImplSeek": [{"op": "CreateTopic", "name": "t1"},
@@ -155,7 +158,7 @@ def _run(ctx, replay):
     # counterexample becomes a scenario; only what the REAL code does with it counts
     impl_stats = []
     if not replay:
-        for mod in plan.get("impl", []):
+        for mod in (plan.get("impl_thorough", []) if tier == "thorough" and plan.get("impl_thorough") else plan.get("impl", [])):
             st, cex = vlib.tlc_impl_cex(ctx, mod, timeout=2400 if tier == "thorough" else 900)
             impl_stats.append(st)
             states += st["distinct"]
